@@ -221,13 +221,11 @@ theorem lexOne_le (s : List Nat) (k : Kind) (n : Nat) (h : lexOne s = .tok k n) 
       | (cases h; have := nextIs_length cs _ (by assumption); omega)
       | (cases h; omega)
 
-def NoTooLong (ts : List Tok) : Prop := ∀ t ∈ ts, t.kind ≠ .errTooLong
-
 theorem getLast?_drop_of_lt (l : List Nat) (n : Nat) (h : n < l.length) : (l.drop n).getLast? = l.getLast? := by
   rw [List.getLast?_drop]; simp; omega
 
 theorem lexF_append (n : Nat) (pre suf : List Nat) (b : Nat) (hs : suf.head? = some b) (hb : Boundary b)
-    (hlen : pre.length ≤ n) (hcomp : Compat pre b) (hok : NoTooLong (lexF n pre)) :
+    (hlen : pre.length ≤ n) (hcomp : Compat pre b) :
     lexF (n + suf.length) (pre ++ suf) = lexF n pre ++ lexF suf.length suf := by
   induction n generalizing pre with
   | zero =>
@@ -246,14 +244,9 @@ theorem lexF_append (n : Nat) (pre suf : List Nat) (b : Nat) (hs : suf.head? = s
       rw [lexOne_append c cs suf b hs hb hcomp]
       cases hl : lexOne (c :: cs) with
       | eof => exact absurd hl (lexOne_cons_ne_eof c cs)
-      | tooLong =>
-        exfalso
-        have : lexF (m + 1) (c :: cs) = [⟨.errTooLong, []⟩] := by simp [lexF, hl]
-        exact hok ⟨.errTooLong, []⟩ (by rw [this]; simp) rfl
       | tok k j =>
         have hp := lexOne_pos _ _ _ hl
         have hle := lexOne_le _ _ _ hl
-        have hstep : lexF (m + 1) (c :: cs) = ⟨k, (c :: cs).take j⟩ :: lexF m ((c :: cs).drop j) := by simp [lexF, hl]
         simp only [List.cons_append, List.cons.injEq]
         have htake : ((c :: cs) ++ suf).take j = (c :: cs).take j := List.take_append_of_le_length hle
         have hdrop : ((c :: cs) ++ suf).drop j = (c :: cs).drop j ++ suf := List.drop_append_of_le_length hle
@@ -267,32 +260,24 @@ theorem lexF_append (n : Nat) (pre suf : List Nat) (b : Nat) (hs : suf.head? = s
           · rw [getLast?_drop_of_lt _ _ hlt] at hl'; exact hcomp l hl'
           · have : (c :: cs).drop j = [] := List.drop_eq_nil_of_le (by omega)
             rw [this] at hl'; simp at hl'
-        · intro t ht
-          exact hok t (by rw [hstep]; exact List.mem_cons_of_mem _ ht)
 
 /-! ## the append lemma -/
 
 /-- THE LEXER SPLITS AT BOUNDARIES.  If the second part starts with a blank, a tab, a CR or a LF, the first part does not
-end in a character that would merge with it (blank before blank, CR before LF) and lexes without the
-`IdentifierTooLong` error, then the tokens of the whole text are the tokens of the parts. -/
+end in a character that would merge with it (blank before blank, CR before LF), then the tokens of the whole text are
+the tokens of the parts.  (The tokenizer has no error case any more: the 40-character limit is a property of names.) -/
 theorem lex_append (pre suf : List Nat) (b : Nat) (hs : suf.head? = some b) (hb : Boundary b)
-    (hcomp : Compat pre b) (hok : NoTooLong (lex pre)) : lex (pre ++ suf) = lex pre ++ lex suf := by
+    (hcomp : Compat pre b) : lex (pre ++ suf) = lex pre ++ lex suf := by
   unfold lex
   rw [List.length_append]
-  exact lexF_append pre.length pre suf b hs hb (Nat.le_refl _) hcomp hok
+  exact lexF_append pre.length pre suf b hs hb (Nat.le_refl _) hcomp
 
 example : lex ([80, 82, 73, 78, 84, 32, 120] ++ [13, 10, 121]) = lex [80, 82, 73, 78, 84, 32, 120] ++ lex [13, 10, 121]
-    ∧ Compat [80, 82, 73, 78, 84, 32, 120] 13 ∧ NoTooLong (lex [80, 82, 73, 78, 84, 32, 120])
+    ∧ Compat [80, 82, 73, 78, 84, 32, 120] 13
     -- and the side conditions matter: CR | LF and blank | blank merge
     ∧ lex ([120, 13] ++ [10]) ≠ lex [120, 13] ++ lex [10] ∧ lex ([120, 32] ++ [32]) ≠ lex [120, 32] ++ lex [32] := by
-  refine ⟨by decide +kernel, ?_, ?_, by decide +kernel, by decide +kernel⟩
-  · intro l hl; simp at hl; subst hl; decide
-  · intro t ht
-    have : lex [80, 82, 73, 78, 84, 32, 120] = [⟨.keyword, [80, 82, 73, 78, 84]⟩, ⟨.ws, [32]⟩, ⟨.ident, [120]⟩] := by
-      decide +kernel
-    rw [this] at ht
-    simp at ht
-    rcases ht with rfl | rfl | rfl <;> decide
+  refine ⟨by decide +kernel, ?_, by decide +kernel, by decide +kernel⟩
+  intro l hl; simp at hl; subst hl; decide
 
 /-! ## the normal-form theorems, anywhere in the program -/
 
@@ -318,17 +303,16 @@ theorem compat_eol (pre : List Nat) (b : Nat) (hb : b = 13 ∨ b = 10) (hcr : pr
 
 /-- LINE ENDINGS, ANYWHERE.  In any program `pre ++ e ++ rest` the spelling `e` of an end of line (CR LF, CR, LF)
 can be replaced by any other spelling `e'` without changing the normal form — whatever precedes it (code, an open
-string literal, a comment), provided the text before does not itself end in a CR (which would pair with a LF) and
-lexes without the identifier-too-long error. -/
+string literal, a comment), provided the text before does not itself end in a CR (which would pair with a LF). -/
 theorem lexical_normal_form_eol_anywhere (pre e e' rest : List Nat) (h : EolSpelling e rest) (h' : EolSpelling e' rest)
-    (hcr : pre.getLast? ≠ some 13) (hok : NoTooLong (lex pre)) :
+    (hcr : pre.getLast? ≠ some 13) :
     norm (lex (pre ++ (e ++ rest))) = norm (lex (pre ++ (e' ++ rest))) := by
   obtain ⟨b, hb, hbb⟩ := eolSpelling_head e rest h
   obtain ⟨b', hb', hbb'⟩ := eolSpelling_head e' rest h'
   have B : ∀ x, x = 13 ∨ x = 10 → Boundary x := fun x hx => hx.elim Or.inl (fun h => Or.inr (Or.inl h))
   unfold norm
-  rw [lex_append pre _ b hb (B b hbb) (compat_eol pre b hbb hcr) hok,
-    lex_append pre _ b' hb' (B b' hbb') (compat_eol pre b' hbb' hcr) hok,
+  rw [lex_append pre _ b hb (B b hbb) (compat_eol pre b hbb hcr),
+    lex_append pre _ b' hb' (B b' hbb') (compat_eol pre b' hbb' hcr),
     normM_append, normM_append, lexical_normal_form_eol _ e e' rest h h']
 
 /-- BLANK RUNS, ANYWHERE.  In any program `pre ++ w ++ rest` a maximal run `w` of blanks and tabs that is not inside a
@@ -337,7 +321,7 @@ theorem lexical_normal_form_blanks_anywhere (pre w w' rest : List Nat)
     (hne : w ≠ []) (hne' : w' ≠ []) (hw : w.all isWs = true) (hw' : w'.all isWs = true)
     (hr : ∀ c, rest.head? = some c → isWs c = false)
     (hpre : ∀ l, pre.getLast? = some l → isWs l = false)
-    (hmode : modeAfter .code (lex pre) ≠ .str) (hok : NoTooLong (lex pre)) :
+    (hmode : modeAfter .code (lex pre) ≠ .str) :
     norm (lex (pre ++ (w ++ rest))) = norm (lex (pre ++ (w' ++ rest))) := by
   have head : ∀ v : List Nat, v ≠ [] → v.all isWs = true → ∃ b, (v ++ rest).head? = some b ∧ isWs b = true := by
     intro v hv hall
@@ -359,7 +343,7 @@ theorem lexical_normal_form_blanks_anywhere (pre w w' rest : List Nat)
   obtain ⟨b, hb, hbw⟩ := head w hne hw
   obtain ⟨b', hb', hbw'⟩ := head w' hne' hw'
   unfold norm
-  rw [lex_append pre _ b hb (B b hbw) (C b hbw) hok, lex_append pre _ b' hb' (B b' hbw') (C b' hbw') hok,
+  rw [lex_append pre _ b hb (B b hbw) (C b hbw), lex_append pre _ b' hb' (B b' hbw') (C b' hbw'),
     normM_append, normM_append, lexical_normal_form_blanks _ hmode w w' rest hne hne' hw hw' hr]
 
 theorem squeeze_append_eol_eol (a x : List NTok) :
@@ -397,14 +381,14 @@ theorem squeeze_append_eol_eol (a x : List NTok) :
 /-- BLANK LINES, ANYWHERE.  An extra end of line directly after an end of line (an empty line) — anywhere in the
 program — disappears in the normal form. -/
 theorem blank_line_insert_anywhere (pre e e2 rest : List Nat) (h2 : EolSpelling e2 rest) (h : EolSpelling e (e2 ++ rest))
-    (h' : EolSpelling e rest) (hcr : pre.getLast? ≠ some 13) (hok : NoTooLong (lex pre)) :
+    (h' : EolSpelling e rest) (hcr : pre.getLast? ≠ some 13) :
     norm (lex (pre ++ (e ++ (e2 ++ rest)))) = norm (lex (pre ++ (e ++ rest))) := by
   obtain ⟨b, hb, hbb⟩ := eolSpelling_head e (e2 ++ rest) h
   obtain ⟨b', hb', hbb'⟩ := eolSpelling_head e rest h'
   have B : ∀ x, x = 13 ∨ x = 10 → Boundary x := fun x hx => hx.elim Or.inl (fun h => Or.inr (Or.inl h))
   unfold norm
-  rw [lex_append pre _ b hb (B b hbb) (compat_eol pre b hbb hcr) hok,
-    lex_append pre _ b' hb' (B b' hbb') (compat_eol pre b' hbb' hcr) hok,
+  rw [lex_append pre _ b hb (B b hbb) (compat_eol pre b hbb hcr),
+    lex_append pre _ b' hb' (B b' hbb') (compat_eol pre b' hbb' hcr),
     normM_append, normM_append, lex_eol e _ h, lex_eol e2 rest h2, lex_eol e rest h']
   simp only [normM, normTok, Mode.next, beq_self_eq_true, if_true, List.cons_append, List.nil_append]
   exact squeeze_append_eol_eol _ _
@@ -449,9 +433,6 @@ theorem lex_head_not_sep (rest : List Nat) (hr : ∀ c, rest.head? = some c → 
     have hc := hr c rfl
     cases hl : lexOne (c :: cs) with
     | eof => exact absurd hl (lexOne_cons_ne_eof c cs)
-    | tooLong =>
-      have : lex (c :: cs) = [⟨.errTooLong, []⟩] := by simp [lex, lexF, hl]
-      rw [this] at ht; simp at ht; subst ht; rfl
     | tok k n =>
       rw [lex_step _ _ _ hl] at ht
       simp at ht; subst ht
